@@ -1768,8 +1768,15 @@ func c14OverlapCase(out *verifh.Out, r *verifh.Rand, directed int) {
 	if directed == 0 && r.Intn(3) == 0 {
 		akind = 13
 	}
-	if directed == 1 {
+	switch directed {
+	case 1:
 		cfg = c14Cfg{low: 1, high: 2, grace: 10, res: 1}
+	case 2:
+		// an early-tagged PROTECTED entry gets its first connection between the snapshots and the selections
+		cfg = c14Cfg{low: 1, high: 2, grace: 0, res: 1}
+	case 3:
+		// ForceTrim (no script): a protected peer with the lowest value and two unprotected ones
+		cfg, akind = c14Cfg{low: 1, high: 2, grace: 10, res: 1}, 13
 	}
 	w := c14NewOvl(cfg, r, out)
 	defer w.close()
@@ -1783,6 +1790,24 @@ func c14OverlapCase(out *verifh.Out, r *verifh.Rand, directed int) {
 		w.exec(c14Op{kind: 1, a: 5, b: 0})
 		w.exec(c14Op{kind: 11, a: 11})
 		s2 = []c14Op{{kind: 1, a: 2, b: 0}, {kind: 3, a: 2, b: 1, v: 5}}
+	} else if directed == 2 || directed == 3 {
+		for _, p := range []int{4, 5} {
+			w.conns[p][0].dir, w.conns[p][0].streams = network.DirOutbound, 0
+		}
+		if directed == 2 {
+			w.exec(c14Op{kind: 3, a: 2, b: 0, v: 0})
+			w.exec(c14Op{kind: 9, a: 2, b: 0})
+			s1 = []c14Op{{kind: 1, a: 2, b: 0}}
+		} else {
+			w.exec(c14Op{kind: 1, a: 3, b: 0})
+			w.exec(c14Op{kind: 1, a: 3, b: 1})
+			w.exec(c14Op{kind: 9, a: 3, b: 0})
+		}
+		for _, p := range []int64{4, 5} {
+			w.exec(c14Op{kind: 1, a: p, b: 0})
+			w.exec(c14Op{kind: 3, a: p, b: 0, v: 5})
+		}
+		out.Cover(fmt.Sprintf("overlap.directed_%d", directed))
 	} else {
 		temp := -1
 		if r.Intn(3) != 0 {
@@ -1916,7 +1941,9 @@ func TestVerifC14(t *testing.T) {
 	}
 	// two trims in flight (outside the synctest bubble: mock clock)
 	c14OverlapCase(out, r, 1)
-	no := 250
+	c14OverlapCase(out, r, 2)
+	c14OverlapCase(out, r, 3)
+	no := 200
 	if thorough {
 		no = 6000
 	}
